@@ -5,7 +5,7 @@
            'P=' stmt ' ' stmt .. ';' 'S=' dec ' ' dec ..
   expr  := 'm'i | 'r'i | 'V(' expr,.. ')' | 'P'p'(' expr ')' | 'B(' expr ')' | 'F(' expr ')'
          | 'T(' expr ')' | 'O'a'(' expr ')' | 'c'j
-  stmt  := 'get' | 'dropkey' | 'forgetkey' | 'dbg:'c | 'isp:'c | 'clr:'c
+  stmt  := 'get' | 'dropkey' | 'forgetkey' | 'dbg:'c[':'bomb] | 'isp:'c | 'clr:'c
          | 'ses:'c':'[ltsq]':'[wr]':'[ob]':'body':'[dufpe]
   body  := '-' | step ',' step ..      step := 'w'pos'='v | 'r'pos | 'd'c | 'g' | 'i'c
   dec   := x '.' kind '.' occ '=' [np]
@@ -63,7 +63,9 @@ def parseStep (s : String) : Option BodyStep :=
       | '=' :: r' => (parseNat r').map fun (v, _) => .write pos v
       | _ => none
   | 'r' :: cs => (parseNat cs).map fun (pos, _) => .read pos
-  | 'd' :: cs => (parseNat cs).map fun (c, _) => .dbg c
+  | 'd' :: cs => (parseNat cs).bind fun (c, r) => match r with
+      | '!' :: r' => (parseNat r').map fun (x, _) => .dbg c (some x)
+      | _ => some (.dbg c none)
   | 'i' :: cs => (parseNat cs).map fun (c, _) => .isPoisoned c
   | ['g'] => some .getKey
   | _ => none
@@ -82,7 +84,8 @@ def parseStmt (colls : List Shape) (s : String) : Option Stmt :=
   | ["get"] => some .get
   | ["dropkey"] => some .dropKey
   | ["forgetkey"] => some .forgetKey
-  | ["dbg", c] => c.toNat?.map .dbg
+  | ["dbg", c] => c.toNat?.map fun c => .dbg c none
+  | ["dbg", c, x] => c.toNat?.bind fun c => x.toNat?.map fun x => .dbg c (some x)
   | ["isp", c] => c.toNat?.map .isPoisoned
   | ["clr", c] => c.toNat?.map .clearPoison
   | ["ses", c, a, m, k, b, e] => do
@@ -160,6 +163,8 @@ def Case.run (c : Case) : String :=
   let C : Ctx := { W := c.world, colls := c.colls }
   let (t, s) := seqRun c.script 100000 { env := c.env, np := c.np, seenPoison := List.replicate c.np false } (program C c.prog {})
   c.id ++ ";" ++ " ".intercalate (s.trace.reverse.map TEv.text) ++ ";" ++ t.text ++ ";" ++
-    finalText c.n c.np s.env
+    (match t with
+     | .abort => "-"          -- the process is gone: there is no final state to compare
+     | _ => finalText c.n c.np s.env)
 
 end HLV
